@@ -20,7 +20,7 @@ ASSUMPTIONS = ['the str oracle is the str type of the interpreter the suite runs
 
 def bounds(tier):
     q = tier == 'quick'
-    return {'search_len': 4 if q else 5, 'pat_len': 2, 'ws_len': 4 if q else 5, 'case_len': 3 if q else 4, 'pad_len': 3}
+    return {'search_len': 4 if q else 5, 'pat_len': 2, 'ws_len': 3 if q else 4, 'case_len': 3 if q else 4, 'pad_len': 3}
 
 
 def wrap(text, how):
@@ -139,7 +139,7 @@ def tasks(tier, seed):
         if len(t) >= b['search_len'] - 1:
             out.append({'fam': 'search', 'text': t})
     out.append({'fam': 'search_short'})
-    W = [' ', '\t', '\n', '\r', '\x0b', 'a', 'b']
+    W = [' ', '\t', '\n', '\r', '\x0b', 'a', 'b', '\x1c', '\x85', '\u2028']      # incl. line boundaries only str.splitlines knows
     for a in W:
         out.append({'fam': 'ws', 'first': a})
     out.append({'fam': 'ws', 'first': None})
@@ -237,7 +237,7 @@ def run_task(task, acc):
         for t in strings(['a', 'b', '-'], b['search_len'] - 2):
             run_text(t, ('S', 'T', 's'), search_cases(t, b), acc)
     elif fam == 'ws':
-        W = [' ', '\t', '\n', '\r', '\x0b', 'a', 'b']
+        W = [' ', '\t', '\n', '\r', '\x0b', 'a', 'b', '\x1c', '\x85', '\u2028']      # incl. line boundaries only str.splitlines knows
         if task['first'] is None:
             ts = ['']
         else:
